@@ -1,8 +1,9 @@
+\* sample configuration (the quick tier of lib/fam_compress.py generates the same text)
 SPECIFICATION MCSpec
 CONSTANTS
   Mutants = {}
-  MaxOps = 7
+  MaxOps = 6
   MaxSets = 2
-  SPFilter = {"v0", "rec256", "rec257", "p10k", "p10k+1", "big", "lk100"}
+  SPFilter = {"rec256", "rec257", "p10k+1", "lk100"}
 INVARIANTS C10_Transparent C10_VHash StoredFlagOK
 CHECK_DEADLOCK FALSE
